@@ -25,9 +25,28 @@ static void body(int t, void*) {
   sim::op_end();
 }
 
+// Is this pc inside a trusted standard-library primitive?  (resolved through addr2line because the
+// functions in question are inlined; only the DWARF inline records know their names)
+static bool pc_in_trusted_stdlib(unsigned pc) {
+  static unsigned cache_pc[64];
+  static int cache_val[64], ncache = 0;
+  for (int i = 0; i < ncache; ++i)
+    if (cache_pc[i] == pc) return cache_val[i];
+  char cmd[256], line[1024] = "";
+  snprintf(cmd, sizeof cmd, "addr2line -f -C -e /proc/%d/exe 0x%x", (int)getpid(), pc);
+  FILE* f = popen(cmd, "r");
+  bool v = false;
+  if (f) {
+    if (fgets(line, sizeof line, f)) v = strstr(line, "std::_Sp_atomic<") != nullptr;
+    pclose(f);
+  }
+  if (ncache < 64) { cache_pc[ncache] = pc; cache_val[ncache++] = v; }
+  return v;
+}
+
 struct Tally {
   int runs = 0, race = 0, deadlock = 0, budget = 0, fair = 0, unsupported = 0, crashed = 0;
-  int wrong_obs = 0, lost_update = 0;
+  int wrong_obs = 0, lost_update = 0, suppressed = 0;
 };
 
 int main(int argc, char** argv) {
@@ -68,7 +87,18 @@ int main(int argc, char** argv) {
         const sim::Result& r = shm->res;
         t2.runs++;
         if (!shm->done && !r.deadlock && !r.budget_exhausted && !r.unsupported) t2.crashed++;
-        if (r.races_total) t2.race++;
+        bool only_stdlib = r.races_total > 0;
+        for (size_t i = 0; i < r.n_races; ++i)
+          if (!(pc_in_trusted_stdlib(r.races[i].pc_cur) && pc_in_trusted_stdlib(r.races[i].pc_prev))) only_stdlib = false;
+        if (only_stdlib) t2.suppressed++;
+        if (r.races_total && !only_stdlib) {
+          t2.race++;
+          if (getenv("RTSELF_VERBOSE") && rep == 0)
+            for (size_t i = 0; i < r.n_races && i < 3; ++i)
+              printf("   %s seed %d: race pc_cur=%x (t%d %c) pc_prev=%x (t%d %c) class=%d size=%u\n", cur->name, seed, r.races[i].pc_cur,
+                     r.races[i].task_cur, r.races[i].w_cur ? 'W' : 'R', r.races[i].pc_prev, r.races[i].task_prev,
+                     r.races[i].w_prev ? 'W' : 'R', r.races[i].addr_class, r.races[i].size);
+        }
         if (r.deadlock) t2.deadlock++;
         if (r.budget_exhausted) t2.budget++;
         if (r.fair_mode_entered) t2.fair++;
@@ -83,6 +113,8 @@ int main(int argc, char** argv) {
             if (!strcmp(n, "rwlock") && o != 0 && o != 40) t2.wrong_obs++;
             if (!strcmp(n, "condvar") && o != 3) t2.wrong_obs++;
             if (!strcmp(n, "spin") && o != 9) t2.wrong_obs++;
+            if (!strcmp(n, "atomic_wait") && o != 9) t2.wrong_obs++;
+            if (!strcmp(n, "cond_wait_for") && o != 3) t2.wrong_obs++;
           }
           for (int t = 0; t < nt; ++t) {
             long o = shm->observed[t];
@@ -90,8 +122,10 @@ int main(int argc, char** argv) {
             if (!strcmp(n, "call_once") && o != 11) t2.wrong_obs++;
             if (!strcmp(n, "heap_reuse") && o != 16L * t) t2.wrong_obs++;
             if (!strcmp(n, "tls") && o != 2L * t + 3) t2.wrong_obs++;
+            if (!strcmp(n, "atomic_shared_ptr") && o != 5) t2.wrong_obs++;
           }
           if (!strcmp(n, "mutex") && shm->counter != 5 * nt) t2.lost_update++;
+          if (!strcmp(n, "scoped_lock") && shm->counter != 3 * nt) t2.lost_update++;
           if (!strcmp(n, "check_then_act") && shm->counter != nt) t2.lost_update++;
         }
       }
@@ -115,8 +149,8 @@ int main(int argc, char** argv) {
     else need(ty.wrong_obs == 0, "wrong value observed");
     if (!strcmp(n, "check_then_act")) need(ty.lost_update > 0, "lost update never produced");
     else need(ty.lost_update == 0, "lost update");
-    printf("%-16s %s  runs=%d race=%d deadlock=%d fair=%d wrong_obs=%d lost=%d %s\n", n, ok ? "ok  " : "FAIL", ty.runs, ty.race,
-           ty.deadlock, ty.fair, ty.wrong_obs, ty.lost_update, why);
+    printf("%-18s %s  runs=%d race=%d deadlock=%d fair=%d wrong_obs=%d lost=%d stdlib_suppressed=%d %s\n", n, ok ? "ok  " : "FAIL", ty.runs,
+           ty.race, ty.deadlock, ty.fair, ty.wrong_obs, ty.lost_update, ty.suppressed, why);
     if (!ok) fails++;
   }
   printf("runtime selftest: %d scenario(s) failed\n", fails);
